@@ -4,6 +4,7 @@ import json
 import os
 import random
 import re
+import time
 
 from .. import cli, gen, model, scenario
 from ..core import Result
@@ -205,6 +206,16 @@ def run_pool(case):
             tid = proj.state_files().get("local-backend-tracked.json", {})
             pool.wait_states(lambda st: list(st.values()).count("RUNNING") == 2, timeout=40)
             before = pool.states()
+            # cancel only the dependent b0 (it is waiting for the running a0): a0 must not be affected
+            r0 = cli.gwf(proj.root, ["cancel", "b0"], env, audit=False)
+            pool.wait_states(lambda st: st.get(tid["b0"]) == "CANCELLED", timeout=30)
+            time.sleep(2.5)  # a wrongly propagated cancellation needs the kill sequence (>= 1 s) to become visible
+            st0 = pool.states()
+            res.mon("pool_cancels")
+            if st0.get(tid["b0"]) != "CANCELLED":
+                res.violation("still-live-after-cancel", "local: b0 is %s after cancel" % st0.get(tid["b0"]))
+            if st0.get(tid["a0"]) != before.get(tid["a0"]):
+                res.violation("cancel-wrong-ids", "local: cancelling the waiting target b0 changed the state of its dependency a0 from %s to %s" % (before.get(tid["a0"]), st0.get(tid["a0"])), states=st0)
             r = cli.gwf(proj.root, ["cancel", "a0", "never"], env, audit=False)
             res.mon("cancel_runs")
             res.mon("pool_cancels")
